@@ -43,6 +43,44 @@ abbrev Fl := Int
 def Fl.inf : Int := 2 ^ 2200
 /-- `math.MaxFloat64` = (2^53 - 1)·2^971, scaled by 2^1074 -/
 def Fl.maxFinite : Int := (2 ^ 53 - 1) * 2 ^ 2045
+/-- `FloatType.bounds`: a bound left at its default (±MaxFloat64) is no bound at all, the type includes the infinity beyond it.
+    (On doubles `x ≤ -MaxFloat64` means `x` is `-MaxFloat64` or `-Inf` and the answer is `-Inf`; the `min` keeps the function
+    below the identity on the integers beyond ±Fl.inf, which denote no double.) -/
+def Fl.effLo (x : Int) : Int := if x ≤ -Fl.maxFinite then min x (-Fl.inf) else x
+def Fl.effHi (x : Int) : Int := if Fl.maxFinite ≤ x then max x Fl.inf else x
+
+theorem Fl.maxFinite_le_inf : Fl.maxFinite ≤ Fl.inf := by decide +kernel
+theorem Fl.effLo_mono {a b : Int} (h : a ≤ b) : Fl.effLo a ≤ Fl.effLo b := by
+  have := Fl.maxFinite_le_inf
+  unfold Fl.effLo
+  by_cases h1 : a ≤ -Fl.maxFinite <;> by_cases h2 : b ≤ -Fl.maxFinite <;> simp only [h1, h2, if_true, if_false] <;> omega
+theorem Fl.effHi_mono {a b : Int} (h : a ≤ b) : Fl.effHi a ≤ Fl.effHi b := by
+  have := Fl.maxFinite_le_inf
+  unfold Fl.effHi
+  by_cases h1 : Fl.maxFinite ≤ a <;> by_cases h2 : Fl.maxFinite ≤ b <;> simp only [h1, h2, if_true, if_false] <;> omega
+theorem Fl.effLo_le (a : Int) : Fl.effLo a ≤ a := by
+  unfold Fl.effLo
+  by_cases h1 : a ≤ -Fl.maxFinite <;> simp only [h1, if_true, if_false] <;> omega
+theorem Fl.le_effHi (a : Int) : a ≤ Fl.effHi a := by
+  unfold Fl.effHi
+  by_cases h1 : Fl.maxFinite ≤ a <;> simp only [h1, if_true, if_false] <;> omega
+/-- the default bounds reach every double -/
+theorem Fl.effLo_default_le {a : Int} (h : -Fl.inf ≤ a) : Fl.effLo (-Fl.maxFinite) ≤ Fl.effLo a := by
+  have := Fl.maxFinite_le_inf
+  unfold Fl.effLo
+  by_cases h1 : a ≤ -Fl.maxFinite <;> simp only [h1, if_true, if_false, Int.le_refl] <;> omega
+theorem Fl.effHi_le_default {a : Int} (h : a ≤ Fl.inf) : Fl.effHi a ≤ Fl.effHi Fl.maxFinite := by
+  have := Fl.maxFinite_le_inf
+  unfold Fl.effHi
+  by_cases h1 : Fl.maxFinite ≤ a <;> simp only [h1, if_true, if_false, Int.le_refl] <;> omega
+theorem Fl.effLo_default : Fl.effLo (-Fl.maxFinite) = -Fl.inf := by
+  have := Fl.maxFinite_le_inf
+  unfold Fl.effLo; simp only [Int.le_refl, if_true]; omega
+theorem Fl.effHi_default : Fl.effHi Fl.maxFinite = Fl.inf := by
+  have := Fl.maxFinite_le_inf
+  unfold Fl.effHi; simp only [Int.le_refl, if_true]; omega
+-- the elaborator must not evaluate the bounds when it builds equation lemmas for `asgRecv` / `inst` (2^2045)
+attribute [irreducible] Fl.effLo Fl.effHi
 
 inductive Ty where
   | any | unit | undef | dflt | scalar | scalarData | numeric | data | richData | str | bin
